@@ -3,14 +3,15 @@ from .configs import CONFIGS, ALL_INTERNAL, CACHES_EXPORT
 CONFIGS["C17"] = dict(
     prop="C17", engine="tx-fault", pkg="internal/verifsim/txharness", harness="C17",
     level="fault_enumeration",
-    level_text="for each seeded @transaction payload (1-6 tasks: insert / update / delete / select / readrows / symbols / sql / "
-               "drop, failing tasks, error conditions that are false, true, empty, malformed or fail at evaluation) the real "
+    level_text="for each seeded @transaction payload (1-6 tasks: insert / update / delete / select / readrows / symbols / sql (update, insert, "
+               "delete, select, transaction-control text) / readrows with row-returning DML / drop, failing tasks, error conditions that are false, true, empty, malformed or fail at evaluation) the real "
                "scripting.Handler runs against a real SQLite file once fault-free and then once per (driver call, fault "
                "kind): statement error, BUSY, disk full at every prepare/exec/query/begin/commit/rollback, and a commit that "
                "fails with the inner transaction left open; after every run the tables must equal the complete result (2xx) "
+               "- both the fault-free run's result and, where defined, an independent model that applies every operation of the payload to the seeded tables - "
                "or the initial state (otherwise), a fresh connection must be able to BEGIN IMMEDIATE, and no transaction may "
                "remain open. Fault placement is exhaustive per payload; payloads are sampled by seed.",
-    technique="deterministic fault injection: exhaustive per-call fault enumeration over a database/sql driver seam, differential all-or-nothing oracle",
+    technique="deterministic fault injection: exhaustive per-call fault enumeration over a database/sql driver seam, all-or-nothing oracle against an independent model and the fault-free run",
     rewrite=dict(dirs=ALL_INTERNAL, sql=["internal/server/tables/database"]),
     sim_packages=("sim", "sync", "simrun", "simsql"),
     extra_files=[CACHES_EXPORT],
@@ -24,7 +25,7 @@ CONFIGS["C17"] = dict(
     real=["scripting.Handler and its task implementations", "tables/database Open/Begin/Commit/Rollback/Close", "dsns file service (in memory)", "database/sql + modernc SQLite on a real file"],
     stubbed=["database/sql.Open in tables/database: fault-injecting driver wrapper (rule R1b)", "the request is handed to the handler directly with an administrator session (routing/authorization are other properties)"],
     assumptions=["SQLite only (the PostgreSQL code paths are not exercised)", "a failed COMMIT of kind error/busy/full is modelled as rolled back by the engine; kind commit-open leaves it open"],
-    required_probes=["reference_success", "reference_refused", "fault_placements", "commit-open@commit"],
+    required_probes=["reference_success", "reference_refused", "fault_placements", "commit-open@commit", "payloads_with_independent_model"],
 )
 
 ROUTER_EXPORT = ("props/common/router_export.go", "internal/router/zz_verifsim_export.go")
